@@ -235,6 +235,25 @@ func extractC01(c *ctxT) {
 		unbondDel = callsMethod(fd.Body, "DelLastEventNonceByOracle")
 	}
 
+	// ---- UnbondedOracle vs the staking unbonding delegation of the oracle's delegate address:
+	//   requireExists  : `if _, err = GetUnbondingDelegation(..); err != nil { return nil, err }`
+	//   refuseIfExists : `if _, err = GetUnbondingDelegation(..); err == nil { return nil, ErrInvalid... }`
+	ubdRule := "none"
+	if fd := c.findFunc(c01Keeper, "MsgServer", "UnbondedOracle"); fd != nil && fd.Body != nil {
+		for _, st := range fd.Body.List {
+			x, ok := st.(*ast.IfStmt)
+			if !ok || x.Init == nil || !strings.Contains(c.src(x.Init), "GetUnbondingDelegation(") || !returnsError(x.Body) {
+				continue
+			}
+			switch c.src(x.Cond) {
+			case "err != nil":
+				ubdRule = "requireExists"
+			case "err == nil":
+				ubdRule = "refuseIfExists"
+			}
+		}
+	}
+
 	// ---- SetLastTotalPower call sites
 	sites := map[string]bool{}
 	for _, fd := range c.funcDecls(c01Keeper) {
@@ -334,6 +353,7 @@ func extractC01(c *ctxT) {
 	var sb strings.Builder
 	sb.WriteString("namespace FxVerif.Gen.C01\n\n")
 	sb.WriteString("inductive Cmp where | lt | lte | other\n  deriving DecidableEq, Repr\n\n")
+	sb.WriteString("inductive UbdRule where | requireExists | refuseIfExists | none\n  deriving DecidableEq, Repr\n\n")
 	w := func(doc, name, typ, val string) {
 		fmt.Fprintf(&sb, "/-- %s -/\ndef %s : %s := %s\n\n", doc, name, typ, val)
 	}
@@ -353,6 +373,7 @@ func extractC01(c *ctxT) {
 	w("GetLastEventNonceByOracle: absent key -> lastObserved-1 (0 if lastObserved = 0); exact body shape recognised", "fallbackLastObservedMinusOne", "Bool", leanBool(fallback))
 	w("checkBridgerIsOracle: `if !oracle.Online { return err }`", "claimRequiresOnline", "Bool", leanBool(online))
 	w("UnbondedOracle calls DelLastEventNonceByOracle", "unbondDeletesLastNonce", "Bool", leanBool(unbondDel))
+	w("UnbondedOracle and the delegate address' staking unbonding delegation: error unless one exists / ErrInvalid while one exists", "unbondUbdRule", "UbdRule", "."+ubdRule)
 	w("BondedOracle calls SetLastTotalPower", "refreshOnBond", "Bool", leanBool(sites["BondedOracle"]))
 	w("AddDelegate calls SetLastTotalPower", "refreshOnAddDelegate", "Bool", leanBool(sites["AddDelegate"]))
 	w("slashing calls SetLastTotalPower when any oracle was slashed", "refreshOnSlash", "Bool", leanBool(sites["slashing"] && slashingCond))
@@ -373,6 +394,7 @@ func extractC01(c *ctxT) {
 	facts["C01.maxOracleSize"] = maxOracle
 	facts["C01.powerReduction"] = powerRed
 	facts["C01.refreshSites"] = siteList
+	facts["C01.unbondUbdRule"] = ubdRule
 	facts["C01.claimSignerField"] = signerField
 	facts["C01.claimVoterSource"] = voterSrc
 	facts["C01.claimValidateBasicBindsSigner"] = binds
